@@ -787,10 +787,19 @@ fn prop_array(t: &mut Tape, st: &mut Stats) -> Result<(), Failure> {
             }
             9 => {
                 let md = 2 + t.below(3) as i64;
-                a.retain(|v| v.as_integer().unwrap() % md != 0);
-                m.retain(|v| v % md != 0);
+                // a predicate with a memory: documented to be called once per element in the original order
+                let (mut seen_a, mut seen_m) = (vec![], vec![]);
+                a.retain(|v| {
+                    let v = v.as_integer().unwrap();
+                    seen_a.push(v);
+                    v % md != 0 && seen_a.len() % 4 != 3
+                });
+                m.retain(|v| {
+                    seen_m.push(*v);
+                    v % md != 0 && seen_m.len() % 4 != 3
+                });
                 interesting = true;
-                (format!("retain %{md}"), String::new(), String::new())
+                (format!("retain %{md} (stateful)"), format!("{seen_a:?}"), format!("{seen_m:?}"))
             }
             10 => {
                 a.sort_by(|x, y| y.as_integer().cmp(&x.as_integer()));
@@ -890,10 +899,17 @@ fn prop_aot(t: &mut Tape, st: &mut Stats) -> Result<(), Failure> {
             }
             4 => {
                 let md = 2 + t.below(2) as i64;
-                a.retain(|t| t["m"].as_integer().unwrap() % md != 0);
-                m.retain(|v| v % md != 0);
+                let (mut na, mut nm) = (0, 0);
+                a.retain(|t| {
+                    na += 1;
+                    t["m"].as_integer().unwrap() % md != 0 && na % 4 != 3
+                });
+                m.retain(|v| {
+                    nm += 1;
+                    v % md != 0 && nm % 4 != 3
+                });
                 interesting = true;
-                format!("retain %{md}")
+                format!("retain %{md} (stateful)")
             }
             5 => {
                 if t.chance(1, 4) {
@@ -1048,10 +1064,18 @@ fn prop_map(t: &mut Tape, st: &mut Stats) -> Result<(), Failure> {
             },
             11 => {
                 let md = 2 + t.below(2) as i64;
-                a.retain(|_, v| v.as_integer().unwrap() % md != 0);
-                m.retain(|(_, v)| v % md != 0);
+                let (mut seen_a, mut seen_m) = (vec![], vec![]);
+                a.retain(|_, v| {
+                    let v = v.as_integer().unwrap();
+                    seen_a.push(v);
+                    v % md != 0 && seen_a.len() % 4 != 3
+                });
+                m.retain(|(_, v)| {
+                    seen_m.push(*v);
+                    v % md != 0 && seen_m.len() % 4 != 3
+                });
                 interesting = true;
-                (format!("retain %{md}"), String::new(), String::new())
+                (format!("retain %{md} (stateful)"), format!("{seen_a:?}"), format!("{seen_m:?}"))
             }
             12 => {
                 if t.chance(1, 4) {
